@@ -36,9 +36,12 @@ type RevalidationContext struct {
 	Freshness  *Freshness
 	Refs       ResponseRefs
 	RefIndex   int
-	// Superseded: the stored response was invalidated or replaced while it
-	// was being validated; it may be returned but not written back.
-	Superseded bool
+	// Unchanged, if not nil, reports whether the stored response is still the
+	// one that was looked up before the origin was asked. It is consulted in
+	// one step with the write-back of a freshened response: a response that
+	// was invalidated or replaced meanwhile may be returned, but not written
+	// back.
+	Unchanged func() bool
 }
 
 func (r RevalidationContext) ToMisc(ccResp CCResponseDirectives) MiscFunc {
@@ -87,21 +90,34 @@ func (r *validationResponseHandler) HandleValidationResponse(
 		// Freshen the stored response (RFC 9111 §4.3.4): write the merged entry
 		// back with the 304's request/response times so that its age restarts.
 		// (not when the request or the freshened response forbids storing).
-		if r.rs != nil && r.ce != nil && !ctx.Superseded &&
+		if r.rs != nil && r.ce != nil &&
 			r.ce.CanStoreResponse(
 				ctx.Stored.Data,
 				ctx.CCReq,
 				ParseCCResponseDirectives(ctx.Stored.Data.Header),
 			) {
-			_ = r.rs.StoreResponse(
-				req,
-				ctx.Stored.Data,
-				ctx.URLKey,
-				ctx.Refs,
-				ctx.Start,
-				ctx.End,
-				ctx.RefIndex,
-			)
+			if cs, ok := r.rs.(ConditionalResponseStorer); ok {
+				_ = cs.StoreResponseIf(
+					req,
+					ctx.Stored.Data,
+					ctx.URLKey,
+					ctx.Refs,
+					ctx.Start,
+					ctx.End,
+					ctx.RefIndex,
+					ctx.Unchanged,
+				)
+			} else if ctx.Unchanged == nil || ctx.Unchanged() {
+				_ = r.rs.StoreResponse(
+					req,
+					ctx.Stored.Data,
+					ctx.URLKey,
+					ctx.Refs,
+					ctx.Start,
+					ctx.End,
+					ctx.RefIndex,
+				)
+			}
 		}
 		CacheStatusRevalidated.ApplyTo(ctx.Stored.Data.Header)
 		r.l.LogCacheRevalidated(req, ctx.URLKey, ctx.ToMisc(nil))
